@@ -48,6 +48,7 @@ type c06Case struct {
 	MayExecute   bool // at most once, either outcome allowed (rejected transfer repeated after funding)
 	MustNotExec  bool // must never execute (rejected conversion is considered exactly once)
 	Metamorphic  bool // repeats must be totally inert: included in the first-occurrence-only comparison
+	FundBetween  bool // the top-up entry sits between the two copies inside one block
 	entry        forge.Entry
 }
 
@@ -128,8 +129,11 @@ func c06Run(j *orch.Job, r *orch.Result) error {
 	add(&c06Case{Name: "T-same-block-x3", Kind: "transfer", Fund: F, Amount: 30 * 1e8, At: []uint32{T}, Times: []int{3}, MustExecute: true, Metamorphic: true})
 	add(&c06Case{Name: "T-next-block", Kind: "transfer", Fund: F, Amount: 40 * 1e8, At: []uint32{T, T + 1}, Times: []int{1, 1}, MustExecute: true, Metamorphic: true})
 	add(&c06Case{Name: "T-later-blocks", Kind: "transfer", Fund: F, Amount: 40 * 1e8, At: []uint32{T, T + 5, T + 9}, Times: []int{1, 2, 1}, MustExecute: true, Metamorphic: true})
-	add(&c06Case{Name: "T-rejected-then-funded", Kind: "transfer", Fund: 50 * 1e8, Amount: 80 * 1e8, At: []uint32{T, T + 3, T + 4, T + 4}, Times: []int{1, 1, 1, 1}, FundAt: T + 1, FundAmt: F, MayExecute: true})
-	add(&c06Case{Name: "T-rejected-same-block-x3", Kind: "transfer", Fund: 50 * 1e8, Amount: 80 * 1e8, At: []uint32{T}, Times: []int{3}, MayExecute: true})
+	// a transfer rejected for insufficient funds and repeated after funding: the property's own observation point
+	// (ledger with duplicates == ledger with first occurrences only) makes every repeat inert, so it must stay rejected
+	add(&c06Case{Name: "T-rejected-then-funded", Kind: "transfer", Fund: 50 * 1e8, Amount: 80 * 1e8, At: []uint32{T, T + 3, T + 4, T + 4}, Times: []int{1, 1, 1, 1}, FundAt: T + 1, FundAmt: F, MustNotExec: true, Metamorphic: true})
+	add(&c06Case{Name: "T-rejected-funded-same-block", Kind: "transfer", Fund: 50 * 1e8, Amount: 80 * 1e8, At: []uint32{T + 6, T + 6}, Times: []int{1, 1}, FundAt: T + 6, FundAmt: F, MustNotExec: true, Metamorphic: true, FundBetween: true})
+	add(&c06Case{Name: "T-rejected-same-block-x3", Kind: "transfer", Fund: 50 * 1e8, Amount: 80 * 1e8, At: []uint32{T}, Times: []int{3}, MustNotExec: true, Metamorphic: true})
 	add(&c06Case{Name: "C-same-block-x2", Kind: "conversion", Fund: F, Amount: 30 * 1e8, Conv: dst, At: []uint32{T}, Times: []int{2}, MustExecute: true, Metamorphic: true})
 	add(&c06Case{Name: "C-next-block", Kind: "conversion", Fund: F, Amount: 30 * 1e8, Conv: dst, At: []uint32{T, T + 1}, Times: []int{1, 1}, MustExecute: true, Metamorphic: true})
 	add(&c06Case{Name: "C-after-execution", Kind: "conversion", Fund: F, Amount: 30 * 1e8, Conv: dst, At: []uint32{T, T + 2, T + 7}, Times: []int{1, 1, 2}, MustExecute: true, Metamorphic: true})
@@ -172,6 +176,15 @@ func c06Run(j *orch.Job, r *orch.Result) error {
 			c.entry = forge.SignedBatch([]forge.Tx{forge.Transfer(c.S.FA(), fat2.PTickerUSD, c.Amount, c.R.FA())}, m.W.EntryTime(c.At[0]), c.S)
 		} else {
 			c.entry = forge.SignedBatch([]forge.Tx{forge.Conversion(c.S.FA(), fat2.PTickerUSD, c.Amount, c.Conv)}, m.W.EntryTime(c.At[0]), c.S)
+		}
+		if c.FundBetween {
+			h := c.At[0]
+			m.Schedule(h, func(v *gen.View, s *forge.BlockSpec) {
+				s.Tx = append(s.Tx, c.entry)
+				s.Tx = append(s.Tx, forge.SignedBatch([]forge.Tx{forge.Transfer(whale.FA(), fat2.PTickerUSD, c.FundAmt, c.S.FA())}, m.W.EntryTime(h)+3, whale))
+				s.Tx = append(s.Tx, c.entry)
+			})
+			continue
 		}
 		for i, h := range c.At {
 			h, n := h, c.Times[i]
@@ -333,7 +346,7 @@ func checkC06(c *Ctx) *orch.Outcome {
 	o.Rule = "one evaluation = one test entry (transfer or conversion, single-purpose sender/recipient) written 2–5 times at a given placement relative to holding / execution / rejection / restart; its number of effects is read from final balances (0 or 1, never more or partial). " +
 		"Plus one metamorphic comparison per chain against the chain with first occurrences only. Non-trivial/distinct = (placement, era) pairs; a pair counts only if the run completed and the first copy reached the expected state."
 	o.Assumptions = []string{
-		"a transfer rejected for insufficient funds and repeated after funding may execute once or stay inert (the statement allows both): judged only as at-most-once",
+		"every repeat of an entry hash must be inert, also after a rejection (the property's observation point is: ledger with duplicates == ledger with first occurrences only)",
 		"compressed eras; window 12",
 	}
 	eras := []string{"early", "bank", "v20", "pip10"}
